@@ -74,19 +74,28 @@ pub struct Renderer {
     pub newlines: bool,
     /// loop counters get unique ids in rendering order (nested loops must not share a counter)
     pub next_loop: std::cell::Cell<u32>,
+    /// inside `$( )`: write case patterns as `(pat)` — brush's tokenizer ends the substitution at
+    /// the `)` of an unparenthesised pattern (known finding C03-case-pattern-in-cmdsubst)
+    pub paren_case: bool,
 }
 
 impl Renderer {
     pub fn new(newlines: bool) -> Renderer {
-        Renderer { newlines, next_loop: std::cell::Cell::new(0) }
+        Renderer { newlines, next_loop: std::cell::Cell::new(0), paren_case: false }
     }
-    fn inner(&self) -> Renderer {
-        Renderer { newlines: false, next_loop: std::cell::Cell::new(self.next_loop.get() + 1000) }
+    fn inner(&self, subst: bool) -> Renderer {
+        Renderer {
+            newlines: false,
+            next_loop: std::cell::Cell::new(self.next_loop.get() + 1000),
+            paren_case: self.paren_case || subst,
+        }
     }
 }
 
 fn is_single_command(s: &Stmt) -> bool {
-    !matches!(s, Stmt::AndOr { .. } | Stmt::Not(_) | Stmt::Pipe(_))
+    // `eval` as a direct pipeline stage is wrapped in braces too: under errexit bash 5.2 reports
+    // status 1 instead of the failing command's status for a bare `eval` stage (oracle quirk)
+    !matches!(s, Stmt::AndOr { .. } | Stmt::Not(_) | Stmt::Pipe(_) | Stmt::Eval(_))
 }
 
 impl Renderer {
@@ -126,6 +135,10 @@ impl Renderer {
             self.stmt(s, out);
             out.push_str("; }");
         }
+    }
+
+    fn stmt_in_group(&self, s: &Stmt, out: &mut String) {
+        self.stmt(s, out);
     }
 
     /// render something usable as an and-or operand (a pipeline, possibly with !)
@@ -217,6 +230,9 @@ impl Renderer {
             Stmt::Case { word, items } => {
                 out.push_str(&format!("case {word} in "));
                 for (pats, body, term) in items {
+                    if self.paren_case {
+                        out.push('(');
+                    }
                     out.push_str(&pats.join("|"));
                     out.push_str(") ");
                     self.list(body, out);
@@ -269,27 +285,32 @@ impl Renderer {
             Stmt::Raw(s) => out.push_str(s),
             Stmt::Pipe(stages) => {
                 for (i, st) in stages.iter().enumerate() {
-                    if i > 0 {
-                        out.push_str(" | ");
+                    if i == 0 {
+                        self.command(st, out);
+                    } else {
+                        // every later stage drains its input first, so that no writer can
+                        // see EPIPE/SIGPIPE depending on timing
+                        out.push_str(" | { cat >/dev/null; ");
+                        self.stmt_in_group(st, out);
+                        out.push_str("; }");
                     }
-                    self.command(st, out);
                 }
             }
             Stmt::SubstAssign(l) => {
                 out.push_str("sv=$( ");
-                let inner = self.inner();
+                let inner = self.inner(true);
                 inner.list(l, out);
                 out.push_str(" )");
             }
             Stmt::SubstArg(l) => {
                 out.push_str("echo \"s:$( ");
-                let inner = self.inner();
+                let inner = self.inner(true);
                 inner.list(l, out);
                 out.push_str(" )\"");
             }
             Stmt::Eval(inner) => {
                 let mut body = String::new();
-                let r = self.inner();
+                let r = self.inner(false);
                 r.stmt(inner, &mut body);
                 out.push_str("eval '");
                 out.push_str(&body.replace('\'', "'\\''"));
@@ -345,7 +366,7 @@ pub struct Facts {
     pub call_in_andor_or_cond: bool,
     pub for_empty_list: bool,
     pub nested_subshell_start: bool,
-    /// `( ! return n )`: a subshell whose only command is a negated return
+    /// `( ! cmd )`: a subshell whose only command is a negated pipeline
     pub sole_bang_return_in_subshell: bool,
     pub case_in_subshell_or_subst: bool,
     pub kinds: std::collections::BTreeSet<&'static str>,
@@ -485,12 +506,8 @@ fn walk(s: &Stmt, w: &mut Walk, f: &mut Facts) {
             if matches!(l.first(), Some(Stmt::Subshell(_))) {
                 f.nested_subshell_start = true;
             }
-            if l.len() == 1 {
-                if let Stmt::Not(i) = &l[0] {
-                    if matches!(**i, Stmt::Return(_)) {
-                        f.sole_bang_return_in_subshell = true;
-                    }
-                }
+            if l.len() == 1 && matches!(l[0], Stmt::Not(_)) {
+                f.sole_bang_return_in_subshell = true;
             }
             w.depth += 1;
             w.in_subshell += 1;
